@@ -241,6 +241,14 @@ def rule_round(prog: Program, modules: Set[str]) -> List[Instance]:
     for fi in prog.all_functions(modules):
         if fi.is_stub:
             continue
+        # int(x + 0.5): rounding by truncation is only correct for non-negative x; the numeric
+        # helpers here are used with negative coordinates and scales
+        for n in walk_own(fi.node):
+            if isinstance(n, ast.Call) and isinstance(n.func, ast.Name) and n.func.id == "int" and len(n.args) == 1:
+                a = n.args[0]
+                if isinstance(a, ast.BinOp) and isinstance(a.op, (ast.Add, ast.Sub)) and (const_num(a.right) == 0.5 or const_num(a.left) == 0.5):
+                    out.append(Instance("R-ROUND", f"{fi.qual}#round:trunc-as-nearest:{short(n, 40)}", BAD,
+                                        f"`{short(n)}` rounds by truncating towards zero: negative values come out one too high (-17.0 -> -16)", fi.where(n)))
         sites = find_sites(fi)
         counter: Dict[str, int] = {}
         for s in sites:
